@@ -261,6 +261,10 @@ GEN_CORE = (" ALSO, harness/translate_coreopt.py re-translates CoreOptimizer.mov
             "test translated; the numpy vector arithmetic pinned by source text to the primitives of theories/CoreOpt.v); proofs/CoreTie.v proves "
             "the generated move_random / conv2pos EQUAL to the model and move_climb input/output-equivalent, so the closure theorems hold for "
             "what the source says now.")
+GEN_INIT = (" ALSO, harness/translate_init.py re-translates Initializer.__init__, set_pos, _init_warm_start, _init_random_search, _fill_rest_random "
+            "and add_n_random_init_pos of init_positions.py into generated/InitGen.v on every run (_init_grid_search / _init_vertices are abstract, "
+            "pinned by digest); proofs/InitTie.v proves the generated _init_warm_start equal to Init.init_warm_start and the generated set_pos to be "
+            "Init.assemble of the parts.")
 EXTRA = {
     "C12": GEN_STOP + " Theorems C12_source_score_exceeded_refines, C12_source_check_refines." + GEN_SEARCH + " Theorem C12_source_search_max_score_exact.",
     "C03": GEN_SEARCH + " Theorems C03_source_search_step_refines, C03_source_search_loop_refines, C03_source_call_accounting.",
@@ -287,7 +291,8 @@ EXTRA = {
             "velocity, spiral point, mutant - are oracle tape entries recomputed by the harness) with closure theorems "
             "C01_pso_iterate, C01_spiral_iterate, C01_de_iterate, C01_es_iterate, C01_cross_or_climb (in box and feasible for every tape), tied "
             "to /repo by an S-unit replaying every iteration step of real runs (position, draws consumed, constraint evaluations)."),
-    "C02": (GEN_CORE + " Theorems C02_source_move_random_feasible, C02_source_move_climb_feasible, C02_source_random_iteration_feasible."
+    "C10": GEN_INIT + " Theorems C10_source_init_warm_start_refines, C10_source_initializer_spec, C10_source_warm_start_in_init_list (C10's list-membership theorem for the generated Initializer).",
+    "C02": (GEN_INIT + " Theorem C02_source_random_inits_feasible." + GEN_CORE + " Theorems C02_source_move_random_feasible, C02_source_move_climb_feasible, C02_source_random_iteration_feasible."
             " ALSO: C02_pso_iterate, C02_spiral_iterate, C02_de_iterate, C02_cross_or_climb (theories/Pop.v): the emitted position "
             "of the population optimizers' iterate is feasible on every path (first candidate, constraint loop, move_climb fallback, "
             "random restart), tied to /repo by the S-unit replaying every iteration step of real runs under coupled constraints."),
@@ -328,8 +333,8 @@ def main():
                    source_commits=[], add_only=True),
         engines=[
             dict(name="coq-model", path="/verif/coq", serves_properties=sorted(CLAIMS), kind_free_text="hand-written Gallina model (theories/), lemmas (proofs/), property theorems (props/Prop_Cxx.v, each with Print Assumptions)"),
-            dict(name="source-translators", path="/verif/harness/pytrans.py", serves_properties=["C01", "C02", "C03", "C04", "C05", "C06", "C08", "C11", "C12", "C13", "C14", "C15", "C16", "C18", "C19"],
-                 kind_free_text="translate_facades.py (C18 data), translate_core.py (tracker layer: C15, C19), translate_driver.py (_stop_run.py, _progress_bar.py: C05, C12-C14), translate_grid.py (grid search: C16, C08), translate_search.py (search.py driver: C03, C12-C14, C18), translate_memory.py (_memory.py wrapper: C06, C11), translate_results.py (_results_manager.py wrapper: C04), translate_coreopt.py (core_optimizer.py moves: C01, C02, C08): Gallina regenerated from /repo's AST on every run, refinement to the hand model proved in proofs/*Tie.v"),
+            dict(name="source-translators", path="/verif/harness/pytrans.py", serves_properties=["C01", "C02", "C03", "C04", "C05", "C06", "C08", "C10", "C11", "C12", "C13", "C14", "C15", "C16", "C18", "C19"],
+                 kind_free_text="translate_facades.py (C18 data), translate_core.py (tracker layer: C15, C19), translate_driver.py (_stop_run.py, _progress_bar.py: C05, C12-C14), translate_grid.py (grid search: C16, C08), translate_search.py (search.py driver: C03, C12-C14, C18), translate_memory.py (_memory.py wrapper: C06, C11), translate_results.py (_results_manager.py wrapper: C04), translate_coreopt.py (core_optimizer.py moves: C01, C02, C08), translate_init.py (init_positions.py: C10, C02): Gallina regenerated from /repo's AST on every run, refinement to the hand model proved in proofs/*Tie.v"),
             dict(name="correspondence", path="/verif/harness", serves_properties=sorted(CLAIMS), kind_free_text="K/D/S units: implementation and model run on the same inputs; the model is evaluated inside Coq (generated cases files, vm_compute)"),
             dict(name="monitors", path="/verif/harness/props", serves_properties=sorted(CLAIMS), kind_free_text="direct Python encodings of each property used to find concrete failing inputs (replays); never the proof"),
         ],
